@@ -22,7 +22,7 @@
 //!  ae  = res_aero / rho_air                     [x64]         rgl = res_grade / weight * length          [x2^18]
 //!  rcl = res_curve / weight * length            [x2^18]       pan = pwr_accel / (mass_static+mass_rot)   [x32]
 //!  F[] = the six forces [x128], powers [x8], energies [x4], rate [x8], t [x4], v [x2], offsets [x16]
-//!  ls  = sums over the locomotives (pwr_out, energy_out, fc.energy_fuel, res.energy_out_chemical)
+//!  ls  = sums over the locomotives (pwr_out, energy_out, fc.energy_fuel, res.energy_out_chemical, dyn = drivetrain ratings)
 //! Realistic-scale ("sl") records: t [x4], v [x1024], offsets [x256], consist powers [x16], energies [/64],
 //! forces / pwr_accel / pwr_res [x1]; getters as <<get(false), get(true), total>> at one common scale.
 //! `StepErr.why` = "neg" when the refusal is the negative-speed guard of SetSpeedTrainSim::solve_step.
@@ -122,12 +122,26 @@ fn hybrid_loco(p: &Value) -> anyhow::Result<Locomotive> {
     Ok(l)
 }
 
-fn toy_consist(c: &Value) -> anyhow::Result<Consist> {
-    let locos: Vec<Locomotive> = ga(c, "units")
+fn toy_locos(units: &[Value]) -> anyhow::Result<Vec<Locomotive>> {
+    units
         .iter()
         .map(|u| if u.get("kind").and_then(|x| x.as_str()) == Some("hybrid") { hybrid_loco(u) } else { build::loco(u) })
-        .collect::<anyhow::Result<_>>()?;
-    build::consist_of(locos, gs(c, "pdct"), Some(1))
+        .collect()
+}
+
+/// "units0" (optional): the consist is first constructed from that list and its locomotives are then replaced
+/// through the public setter `set_loco_vec` (grown or shrunk) before it is handed to the builder.
+fn toy_consist(c: &Value) -> anyhow::Result<Consist> {
+    let locos = toy_locos(ga(c, "units"))?;
+    match c.get("units0").and_then(|x| x.as_array()) {
+        Some(u0) => {
+            let mut con = build::consist_of(toy_locos(u0)?, gs(c, "pdct"), Some(1))?;
+            con.set_loco_vec(locos);
+            con.set_save_interval(Some(1));
+            Ok(con)
+        }
+        None => build::consist_of(locos, gs(c, "pdct"), Some(1)),
+    }
 }
 
 fn train_config(desc: &Value, vmax: f64) -> anyhow::Result<TrainConfig> {
@@ -148,15 +162,19 @@ fn train_config(desc: &Value, vmax: f64) -> anyhow::Result<TrainConfig> {
 // projections
 
 struct LocoSum {
+    dynb: f64,
     out: f64,
     e: f64,
     ef: f64,
     er: f64,
 }
 fn loco_sum(c: &Consist) -> LocoSum {
-    let mut s = LocoSum { out: 0.0, e: 0.0, ef: 0.0, er: 0.0 };
+    let mut s = LocoSum { dynb: 0.0, out: 0.0, e: 0.0, ef: 0.0, er: 0.0 };
     for l in &c.loco_vec {
         s.out += l.state.pwr_out.value;
+        if let Some(e) = l.electric_drivetrain() {
+            s.dynb += e.pwr_out_max.value;
+        }
         s.e += l.state.energy_out.value;
         if let Some(fc) = l.fuel_converter() {
             s.ef += fc.state.energy_fuel.value;
@@ -180,7 +198,7 @@ fn ledger_json(q: &mut Q, c: &Consist, sp: f64, se: f64) -> (Value, Value) {
         "er": q.q(s.energy_res.value, se),
         "gef": q.q(c.get_energy_fuel().value, se), "ger": q.q(c.get_net_energy_res().value, se),
     });
-    let lj = json!({"out": q.q(ls.out, sp), "e": q.q(ls.e, se), "ef": q.q(ls.ef, se), "er": q.q(ls.er, se)});
+    let lj = json!({"dyn": q.q(ls.dynb, sp), "out": q.q(ls.out, sp), "e": q.q(ls.e, se), "ef": q.q(ls.ef, se), "er": q.q(ls.er, se)});
     (cj, lj)
 }
 
@@ -380,6 +398,9 @@ fn expand_locate(desc: &Value) -> Value {
     }
     if sel % 3 == 1 {
         d["tinit"] = json!("default");
+    }
+    if sel % 7 == 0 {
+        d["consist"]["units0"] = json!([{"kind":"conv","rfc":16384,"rgen":16384,"redrv":16384,"mass":1024}]);
     }
     if sel % 4 == 1 {
         d["vinit"] = json!("default"); // the 8 m/s replay as a rolling start under the default initial state
@@ -682,6 +703,21 @@ fn gen_ss(r: &mut Rng, neg: bool) -> Value {
             units.push(json!({"kind":"hybrid","mass":1024,"rres": *r.pick(&[8192i64, 16384, 32768, 65536]),"aux":0}));
         }
     }
+    // a quarter of the consists are first constructed from another list and then re-listed through set_loco_vec
+    let units0: Option<Vec<Value>> = if r.chance(1, 4) {
+        let small = json!({"kind":"conv","rfc":8192,"rgen":8192,"redrv":8192,"mass":1024});
+        Some(if units.len() >= 2 && r.chance(1, 2) {
+            units[..1].to_vec() // grown
+        } else if r.chance(1, 2) {
+            let mut u = units.clone(); // shrunk
+            u.push(json!({"kind":"conv","rfc":262144,"rgen":262144,"redrv":262144,"mass":1024}));
+            u
+        } else {
+            vec![small] // replaced
+        })
+    } else {
+        None
+    };
     let has_hybrid = units.iter().any(|u| u["kind"] == "hybrid");
     // hard braking (up to 1 m/s2): beyond the regeneration capability of small batteries
     let hard = if has_hybrid { r.chance(2, 3) } else { r.chance(1, 6) };
@@ -731,6 +767,9 @@ fn gen_ss(r: &mut Rng, neg: bool) -> Value {
         "consist":{"units":units,"pdct": *r.pick(&["RESGreedy", "Proportional"])},"t":t,"v":v});
     if ovr {
         d["train_mass"] = json!(r.range(4, 24) * 1024);
+    }
+    if let Some(u0) = units0 {
+        d["consist"]["units0"] = Value::Array(u0);
     }
     if x0 != tlen {
         d["x0"] = json!(x0);
